@@ -56,6 +56,27 @@ def rule_model(program, ctx, prop=P, rid="C12.model"):
                 ctx.bad(finding_at(prop, rid, st, f"NostrQuery.{name} has no upper bound below 2**32: to_bytes(4) in the LMDB scanner overflows"))
             else:
                 ctx.ok(rid, st, f"NostrQuery.{name}: int, ge=0" + ("" if name == "limit" else f", lt={kw['lt'].value}"))
+    mv = program.func("nostr_relay.storage.base:NostrQuery.model_validate")
+    objp = mv.args.args[1].arg
+    touched = []
+    for n_ in walk_no_nested(mv):
+        if isinstance(n_, ast.Call) and isinstance(n_.func, ast.Attribute) and n_.func.attr in ("pop", "__delitem__", "__setitem__", "update", "clear", "popitem", "setdefault") and dotted(n_.func.value) == objp:
+            key = n_.args[0].value if n_.args and isinstance(n_.args[0], ast.Constant) else "?"
+            if key != "tags":
+                touched.append((n_, key))
+        if isinstance(n_, (ast.Assign, ast.Delete, ast.AugAssign)):
+            tg = n_.targets if isinstance(n_, (ast.Assign, ast.Delete)) else [n_.target]
+            for t_ in tg:
+                if isinstance(t_, ast.Subscript) and dotted(t_.value) == objp:
+                    key = t_.slice.value if isinstance(t_.slice, ast.Constant) else "?"
+                    if key != "tags":
+                        touched.append((n_, key))
+    if touched:
+        for n_, key in touched:
+            ctx.bad(finding_at(prop, rid, n_, f"model_validate rewrites the client's filter member `{key}` before pydantic sees it: a value pydantic would coerce (\"limit\": \"2\", 3.0) or "
+                               "reject is silently replaced/dropped, and the filter runs with the default instead"))
+    else:
+        ctx.ok(rid, mv, "model_validate touches no filter member except 'tags'")
     for n in ("limit", "since", "until"):
         if n not in seen:
             ctx.bad(finding_at(prop, rid, ci.node, f"NostrQuery.{n} not declared", text=n))
